@@ -676,15 +676,21 @@ async fn run_ops_inner(p: Arc<Prog>, objs: Arc<Vec<Obj>>, b: usize, kind: Kind) 
             }
             Op::Atomic(a, aop) => {
                 let Obj::Atomic(at) = &objs[a] else { panic!("vharness: not an atomic") };
-                let o = Ordering::SeqCst;
+                // Shuttle gives every ordering the sequentially consistent behaviour; the orderings used vary with the
+                // object so that no ordering gets a treatment of its own unnoticed
+                let (o, lo, so) = match a % 3 {
+                    0 => (Ordering::SeqCst, Ordering::SeqCst, Ordering::SeqCst),
+                    1 => (Ordering::Relaxed, Ordering::Relaxed, Ordering::Relaxed),
+                    _ => (Ordering::AcqRel, Ordering::Acquire, Ordering::Release),
+                };
                 let (ok, ret) = match aop {
-                    AOp::Ld => (true, at.load(o)),
+                    AOp::Ld => (true, at.load(lo)),
                     AOp::St(v) => {
-                        at.store(v, o);
+                        at.store(v, so);
                         (true, 0)
                     }
                     AOp::Sw(v) => (true, at.swap(v, o)),
-                    AOp::Cas(c, n) => match at.compare_exchange(c, n, o, o) {
+                    AOp::Cas(c, n) => match at.compare_exchange(c, n, o, lo) {
                         Ok(v) => (true, v),
                         Err(v) => (false, v),
                     },
@@ -1564,6 +1570,9 @@ pub fn run_iters(words: &[&str]) -> String {
 /// the running task.  Explored exhaustively; prints OK or the failure.
 pub fn run_probe(words: &[&str]) -> String {
     let [_, what, arg] = words else { return "ERR bad case".to_string() };
+    if *what == "jhmove" {
+        return probe_jhmove();
+    }
     if *what != "f17" {
         return "ERR unknown probe".to_string();
     }
@@ -1587,6 +1596,39 @@ pub fn run_probe(words: &[&str]) -> String {
                 s.release(1);
                 drop(big);
             });
+        })
+    }));
+    match res {
+        Ok(n) => format!("PROBE OK N={}", n),
+        Err(p) => format!("PROBE FAIL {}", classify(p)),
+    }
+}
+
+/// probe jhmove 0: a JoinHandle polled once by task A (Pending: A's waker is registered) and then awaited by another task
+/// must wake the task that polled it last (the program language keeps JoinHandles task-local, so this hand-over is a
+/// directed scenario).  Explored exhaustively.
+fn probe_jhmove() -> String {
+    use std::future::Future;
+    let mut config = Config::new();
+    config.failure_persistence = FailurePersistence::None;
+    let res = catch_unwind(AssertUnwindSafe(|| {
+        Runner::new(shuttle_schedulers::DfsScheduler::new(Some(5000), false), config).run(move || {
+            let gate = Arc::new(BatchSemaphore::new(0, Fairness::StrictlyFair));
+            let g2 = gate.clone();
+            let worker = shuttle::future::spawn(async move {
+                g2.acquire(1).await.unwrap();
+                7u64
+            });
+            let a = shuttle::future::spawn(async move {
+                let mut h = worker;
+                let first = std::future::poll_fn(|cx| std::task::Poll::Ready(std::pin::Pin::new(&mut h).poll(cx))).await;
+                (first.is_ready(), h)
+            });
+            let (done, h) = shuttle::future::block_on(a).unwrap();
+            assert!(!done, "vharness: the worker cannot have finished");
+            gate.release(1);
+            let v = shuttle::future::block_on(h).unwrap();
+            assert_eq!(v, 7);
         })
     }));
     match res {
